@@ -8,7 +8,7 @@ namespace ops {
 
 inline const char* const kDiffFn[] = {"dr1_num_rminus", "dr1_num_compose2", "dr2_num_sqnorm", "dr1_default",
                                       "dr1_analytic", "dr2_analytic", "dr1_num_subset", "dr1_num_mixed_private",
-                                      "dr0_value", "dr1_num_exp"};
+                                      "dr0_value", "dr1_num_exp", "dr2_num_two_args", "dr2_num_three_args", "dr2_default_two_args"};
 constexpr int kDiffNFn = sizeof(kDiffFn) / sizeof(kDiffFn[0]);
 
 // functor with hand-coded derivatives; shared between tasks as a const object
@@ -130,6 +130,36 @@ struct DiffOps {
           [opp](const auto& t) { h::cb_tick(*opp); return smooth::exp<G>(t); }, smooth::wrt(ta));
         put_elem(out, f);
         put_mat(out, J);
+        break;
+      }
+      case 10: {  // second order, several arguments: the Jacobian and Hessian are assembled block by block
+        const auto [f, J, H] = smooth::diff::dr<2, Type::Numerical>(
+          [opp](const auto& v1, const auto& v2) -> double { h::cb_tick(*opp); return smooth::rminus(v1, v2).squaredNorm(); },
+          smooth::wrt(a, b));
+        out.f64(f);
+        put_mat(out, J);
+        put_mat(out, H);
+        break;
+      }
+      case 11: {
+        const auto [f, J, H] = smooth::diff::dr<2, Type::Numerical>(
+          [opp](const auto& v1, const auto& t, const auto& v2) -> double {
+            h::cb_tick(*opp);
+            return smooth::rminus(smooth::rplus(v1, t), v2).squaredNorm();
+          },
+          smooth::wrt(a, ta, b));
+        out.f64(f);
+        put_mat(out, J);
+        put_mat(out, H);
+        break;
+      }
+      case 12: {
+        const auto [f, J, H] = smooth::diff::dr<2>(
+          [opp](const auto& v1, const auto& v2) -> double { h::cb_tick(*opp); return smooth::rminus(v2, v1).squaredNorm(); },
+          smooth::wrt(a, b));
+        out.f64(f);
+        put_mat(out, J);
+        put_mat(out, H);
         break;
       }
       default: out.tag("?"); break;
